@@ -28,6 +28,9 @@ def main(argv=None):
             seed = 0
     os.environ.setdefault("PYTHONHASHSEED", "0")
     sys.setrecursionlimit(3000)
+    import warnings
+
+    warnings.filterwarnings("ignore")
 
     from . import engine, known
 
